@@ -8,15 +8,23 @@ from urllib.parse import unquote_to_bytes
 
 from sa.selftest import Mutant, Silent
 from sa.source import AnalysisError
-from sa.props._lib_f import InterpError, ModelRaised, NullLogger, RepoObject, World
+from sa.astx import call_attr, call_name, src, walk_local
+from sa.source import methods
+from sa.props._lib_f import (Abstain, InterpError, ModelRaised, NullLogger, RepoObject, World, enclosing_try_handlers, from_here, handler_names, norm_function,
+                             norm_method, param_names, param_uses, structural)
 
 PROPERTY = "C26"
 FP = "python/filepath.py"
 ST = "web/static.py"
 SV = "web/server.py"
 RS = "web/resource.py"
-TECHNIQUE = "finite-domain interpretation of FilePath / static.File against a containment oracle"
+TECHNIQUE = "taint/provenance + dominance on the normalised getChild; child()/preauthChild() exhaustively over normpath classes; bounded model-file-system histories"
 EXPLANATION = (
+    "STRUCTURAL (for every path, on the normalised view with private helpers inlined): in static.File.getChild the request segment reaches the file system only as the "
+    "argument of a containment-checked constructor (child / preauthChild / descendant) whose InsecurePath ends in childNotFound; every other use is inert; the other path "
+    "builders take configuration only; the upward-looking extension search is confined to `not <path>.exists()` (so never the root); File/Resource do not override "
+    "child(); Request.process splits at '/' before unquoting each piece and getChildForRequest passes each popped segment on unchanged.  FINITE-EXHAUSTIVE: child / "
+    "preauthChild / descendant over every normpath class x parent class x str/bytes (domain argument checked on the code).  BOUNDED second layer: "
     "FilePath, static.File, server.Request.process (up to the point where postpath is set) and resource.getChildForRequest are instantiated as model objects whose "
     "methods are the repository's own functions, interpreted over the AST (os.path modelled by posixpath, the codecs delegated to CPython, a small model file system "
     "stands for the disk; nothing of twisted is imported or run), so the verdict does not depend on how the code is spelled or which private helpers it uses: (a) "
@@ -28,6 +36,13 @@ EXPLANATION = (
     "Request.process turns '/a%2Fb/%2e%2e/c' into the segments [a/b, .., c] (split before unquote) and getChildForRequest hands each segment on whole and in "
     "order. Not decided: symbolic links (excluded by the statement), Windows path rules."
 )
+RULE_KINDS = {
+    "static/segment-only-through-child": "structural", "static/insecure-path-handled": "structural", "static/path-builders": "structural",
+    "static/upward-footprint-guarded": "structural", "static/child-not-overridden": "structural", "static/undecodable-notfound": "structural",
+    "server/split-before-unquote": "structural", "server/segment-passed-whole": "structural",
+    "containment/": "finite-exhaustive",
+    "static/evaluated-containment": "bounded", "server/evaluated": "bounded",
+}
 ASSUMPTIONS = ["posixpath.normpath/join/abspath model os.path on the analysed platform (POSIX)",
                "File.indexNames / ignoredExts are administrator configuration, not request data"]
 
@@ -150,7 +165,15 @@ def _semantics(ctx, meth, direct, rule):
         r, nm, what = bad[0]
         msg = (f"FilePath({r!r}).{meth}({nm!r}) {what}: not InsecurePath, the parent itself or "
                f"{'a direct child' if direct else 'a path inside the subtree'}; {len(bad)} of {n} names misjudged")
-    ctx.check(not bad, rule, q, msg, detail=f"{n} (parent, name, str/bytes) cases; {accepted} accepted, all contained")
+    other = _domain_argument(ctx, meth)
+    if other is None or other:
+        ctx.note(f"{rule}: the domain argument could not be checked on the code ({other}); the verdict is about the enumerated names only")
+        dom = "domain argument NOT verified on this shape: bounded reading"
+    else:
+        dom = ("domain argument (checked on the normalised code): the name is used only through type(name), normpath(name), equality with constants and messages, so the decision "
+               "depends on the normpath class of the name x the parent class; all classes ('.', '..', '../x', '../..', x, x/y, '/x', '//x', with empty / dotted / NUL / backslash "
+               "segments) x ('/', '/t/root', non-UTF-8 parent) x (str, bytes) are enumerated")
+    ctx.check(not bad, rule, q, msg, detail=f"{n} (parent, name, str/bytes) cases; {accepted} accepted, all contained; {dom}")
     ctx.extra.setdefault("finite_cases", {})[meth] = n
 
 
@@ -287,7 +310,7 @@ def _server(ctx):
             got = f"raises {e.name}"
         if got != want:
             bad.append((path, got, want))
-    ctx.check(not bad, "server/split-before-unquote", q, f"request path {bad[0][0]!r} becomes the segments {bad[0][1]!r} instead of {bad[0][2]!r}: the path is not split at '/' before each piece "
+    ctx.check(not bad, "server/evaluated", q + " | postpath", f"request path {bad[0][0]!r} becomes the segments {bad[0][1]!r} instead of {bad[0][2]!r}: the path is not split at '/' before each piece "
               "is unquoted (an encoded separator would create extra segments / '..' pieces that bypass the per-segment checks)" if bad else "")
     # traversal hands every segment on whole and in order
     ctx.func(RS, "getChildForRequest")
@@ -312,7 +335,7 @@ def _server(ctx):
         log = []
         res, exc = _try(rw.resolve("getChildForRequest"), _Res(log, leaf_after), req)
         ok = exc is None and log == want and req.prepath == want and req.postpath == segs[len(want):] and isinstance(res, _Res)
-        ctx.check(ok, "server/segment-passed-whole", "twisted.web.resource.getChildForRequest" + f" | {segs}",
+        ctx.check(ok, "server/evaluated", "twisted.web.resource.getChildForRequest" + f" | {segs}",
                   f"traversal of {segs}: children asked {log}, prepath {req.prepath}, postpath left {req.postpath}, raises {exc} (each segment whole, in order, until a leaf)")
     ctx.func(RS, "Resource.getChildWithDefault")
     seen = []
@@ -320,12 +343,187 @@ def _server(ctx):
     rw.override("getChild", lambda o, path, request: seen.append(path) or "<dynamic child>")
     r1, e1 = _try(robj.getChildWithDefault, b"a/b", _Req())
     r2, e2 = _try(robj.getChildWithDefault, b"static", _Req())
-    ctx.check(e1 is None and e2 is None and seen == [b"a/b"] and r1 == "<dynamic child>" and r2 == "<registered child>", "server/segment-passed-whole",
+    ctx.check(e1 is None and e2 is None and seen == [b"a/b"] and r1 == "<dynamic child>" and r2 == "<registered child>", "server/evaluated",
               "twisted.web.resource.Resource.getChildWithDefault", f"getChildWithDefault: getChild saw {seen}, results {r1!r}/{r2!r}, raises {e1 or e2}")
 
 
+# ==================================================================================================================================
+# STRUCTURAL layer (for-all verdicts on the normalised view: private helpers inlined, pure temporaries substituted)
+# ==================================================================================================================================
+SANITISERS = {"self.child", "self.preauthChild", "self.descendant"}          # each proven contained by the finite-exhaustive containment/* rules
+INERT = {"isinstance", "log.err", "log.msg", "repr", "len", "bool", "str"}
+UPWARD = {"siblingExtensionSearch", "siblingExtension", "sibling", "parent", "dirname", "basename", "realpath"}
+PATH_SINKS = {"clonePath", "joinpath", "join", "FilePath", "File", "open", "abspath", "normpath", "createSimilarFile", "childSearchPreauth", "siblingExtensionSearch",
+              "sibling", "siblingExtension", "listdir", "exists", "isdir", "isfile", "stat", "remove", "makedirs"}
+
+
+def _taint_getchild(ctx):
+    """Provenance: on EVERY path of File.getChild the request segment reaches the file system only as the argument of a containment-checked constructor
+    (child / preauthChild / descendant), whose InsecurePath is turned into childNotFound; configured lists are the only other path sources."""
+    f = norm_method(ctx, ST, "File", "getChild")
+    g = ctx.cfg(f)
+    q = "twisted.web.static.File.getChild"
+    seg = param_names(f)[1]
+    reqp = param_names(f)[2] if len(param_names(f)) > 2 else "request"
+    tainted = {seg}
+    assigns = [s_ for s_ in walk_local(f) if isinstance(s_, ast.Assign)]
+    changed = True
+    while changed:
+        changed = False
+        for s_ in assigns:
+            v = s_.value
+            if isinstance(v, ast.Call) and call_name(v) in SANITISERS:
+                continue
+            if any(isinstance(x, ast.Name) and x.id in tainted for x in ast.walk(v)):
+                for t in s_.targets:
+                    for x in ast.walk(t):
+                        if isinstance(x, ast.Name) and x.id not in tainted:
+                            tainted.add(x.id)
+                            changed = True
+
+    def mentions(node, names=None):
+        names = tainted if names is None else names
+        return any(isinstance(x, ast.Name) and x.id in names for x in ast.walk(node))
+    nsan = 0
+    for c in [c for c in walk_local(f) if isinstance(c, ast.Call)]:
+        args = list(c.args) + [k.value for k in c.keywords]
+        cn = call_name(c) or ""
+        if not any(mentions(a_) for a_ in args):
+            continue
+        if cn in SANITISERS:
+            nsan += 1
+            ctx.check(len(c.args) == 1 and isinstance(c.args[0], ast.Name), "static/segment-only-through-child", ctx.construct(q, c) if False else q + f" | {cn}(segment)",
+                      "the request segment is transformed before it reaches the containment-checked constructor")
+            hs = enclosing_try_handlers(f, c)
+            handled = [h for h in hs if {"InsecurePath", "Exception", "<bare>", "BaseException"} & set(handler_names(h))]
+            ctx.check(bool(handled), "static/insecure-path-handled", q + f" | {cn}(segment)", "InsecurePath raised for a hostile segment is not handled (500 instead of not-found)")
+            for h in handled:
+                rets = [n for n in g.ids(lambda x: x.kind == "stmt" and isinstance(x.ast, ast.Return)) if src(g.node(n).ast.value) == "self.childNotFound"]
+                w = from_here(g, g.ids_of(h), rets)
+                ctx.check(w is None, "static/insecure-path-handled", q + " | except InsecurePath", "a refused segment does not end in childNotFound", witness=g.describe(w))
+        elif cn in INERT or (isinstance(c.func, ast.Attribute) and c.func.attr == "decode" and mentions(c.func.value)):
+            ctx.ok("static/segment-only-through-child", q + f" | inert use: {cn or 'decode'}")
+        elif cn.startswith("self._") and call_attr(c) not in PATH_SINKS:
+            raise Abstain(f"the segment is passed to the private helper {cn}, which the normaliser did not inline")
+        else:
+            ctx.violation("static/segment-only-through-child", q + f" | {cn or src(c.func)}(segment)",
+                          "the request path segment is passed to a call other than the containment-checked constructors: it can name a file outside the directory "
+                          "(no separator / '..' rejection)")
+    for c in [c for c in walk_local(f) if isinstance(c, ast.Call) and isinstance(c.func, ast.Attribute) and mentions(c.func.value) and c.func.attr not in ("decode",)]:
+        ctx.violation("static/segment-only-through-child", q + f" | segment.{c.func.attr}()", "a method of the raw request segment is used to derive a path")
+    for b in [b for b in walk_local(f) if isinstance(b, ast.BinOp) and mentions(b)]:
+        ctx.violation("static/segment-only-through-child", q + " | <operator on the segment>", "the request segment is combined into a path by an operator")
+    if nsan == 0:
+        raise Abstain("no containment-checked constructor is applied to the segment in the normalised getChild")
+    ctx.ok("static/segment-only-through-child", q + " | <every use of the segment>", f"{nsan} sanitiser site(s); all other uses inert")
+    # the other path sources are configuration, never request data
+    for c in [c for c in walk_local(f) if isinstance(c, ast.Call) and call_attr(c) in ("childSearchPreauth", "siblingExtensionSearch", "siblingExtension", "sibling", "createSimilarFile")]:
+        bad_names = {x.id for a_ in c.args for x in ast.walk(a_) if isinstance(x, ast.Name)} & (tainted | {reqp})
+        ctx.check(not bad_names, "static/path-builders", q + f" | {call_attr(c)}(...)", f"{call_attr(c)}() is fed from request data ({sorted(bad_names)}): these builders do no containment check")
+    # upward footprint: the extension search looks into the PARENT of its receiver; it may only run on a path proven not to be the root itself
+    for c in [c for c in walk_local(f) if isinstance(c, ast.Call) and call_attr(c) in UPWARD and isinstance(c.func, ast.Attribute)]:
+        recv = src(c.func.value)
+        if recv == "self":
+            ctx.violation("static/upward-footprint-guarded", q + f" | self.{c.func.attr}()", "an upward-looking operation is applied to the root itself")
+            continue
+        nid = g.ids_of(c)
+        guards = [(src(g.node(t).ast), lab) for n_ in nid for t, lab in g.edge_guards(n_)]
+        ok = (f"{recv}.exists()", "F") in guards
+        ctx.check(ok, "static/upward-footprint-guarded", q + f" | <path>.{c.func.attr}()",
+                  f"{recv}.{c.func.attr}() looks into the parent directory of {recv}; it is not confined to `{recv}.exists()` being false (child('.') is the existing root: its siblings "
+                  f"'<root><ext>' would be served); guards found: {guards}")
+
+
+def _undecodable(ctx):
+    f = norm_method(ctx, ST, "File", "getChild")
+    g = ctx.cfg(f)
+    q = "twisted.web.static.File.getChild"
+    seg = param_names(f)[1]
+    dec = [c for c in walk_local(f) if isinstance(c, ast.Call) and call_attr(c) == "decode" and isinstance(c.func, ast.Attribute) and src(c.func.value) == seg]
+    if len(dec) != 1:
+        raise Abstain(f"{len(dec)} decode sites of the segment")
+    hs = enclosing_try_handlers(f, dec[0])
+    hh = [h for h in hs if {"UnicodeDecodeError", "UnicodeError", "ValueError", "Exception"} & set(handler_names(h))]
+    if not hh:
+        ctx.violation("static/undecodable-notfound", q + " | segment.decode()", "a segment that is not valid UTF-8 raises out of getChild (500)")
+        return
+    rets = [n for n in g.ids(lambda x: x.kind == "stmt" and isinstance(x.ast, ast.Return)) if src(g.node(n).ast.value) == "self.childNotFound"]
+    if not all(from_here(g, g.ids_of(h), rets) is None for h in hh):
+        raise Abstain("the decode-error handler does not return childNotFound directly")
+    ctx.ok("static/undecodable-notfound", q + " | segment.decode()")
+
+
+def _not_overridden(ctx):
+    for rel, cn in ((ST, "File"), (RS, "Resource")):
+        ms = methods(ctx.cls(rel, cn))
+        ctx.check(not ({"child", "preauthChild", "descendant"} & set(ms)), "static/child-not-overridden", f"{rel}:{cn}", "child()/preauthChild() is overridden, FilePath's containment check no longer applies")
+    bases = [src(b) for b in ctx.cls(ST, "File").bases]
+    ctx.check(any(b.startswith("filepath.FilePath") for b in bases), "static/child-not-overridden", "twisted.web.static.File | bases", f"File no longer derives from filepath.FilePath: {bases}")
+
+
+def _server_structural(ctx):
+    f = norm_method(ctx, SV, "Request", "process")
+    q = "twisted.web.server.Request.process"
+    sts = [s_ for s_ in walk_local(f) if isinstance(s_, ast.Assign) and any(src(t) == "self.postpath" for t in s_.targets)]
+    if len(sts) != 1:
+        raise Abstain(f"{len(sts)} assignments to self.postpath")
+    v = sts[0].value
+    while isinstance(v, ast.Call) and call_name(v) in ("list", "tuple") and len(v.args) == 1:
+        v = v.args[0]
+    per_piece = split_expr = None
+    if isinstance(v, ast.Call) and call_name(v) == "map" and len(v.args) == 2:
+        per_piece, split_expr = src(v.args[0]), v.args[1]
+    elif isinstance(v, (ast.ListComp, ast.GeneratorExp)) and len(v.generators) == 1 and isinstance(v.elt, ast.Call) and [src(a_) for a_ in v.elt.args] == [src(v.generators[0].target)]:
+        per_piece, split_expr = call_name(v.elt), v.generators[0].iter
+    if per_piece is None:
+        if "unquote" in src(v) and ".split(" in src(v):
+            inner = [c for c in ast.walk(v) if isinstance(c, ast.Call) and call_attr(c) == "split"]
+            if inner and any("unquote" in src(c.func.value) for c in inner):
+                ctx.violation("server/split-before-unquote", q + " | self.postpath", "the request path is unquoted BEFORE it is split at '/': %2F creates extra segments / '..' pieces")
+                return
+        raise Abstain("postpath is not built by map()/a comprehension over a split")
+    ok = per_piece == "unquote" and isinstance(split_expr, ast.Call) and call_attr(split_expr) == "split" and [src(a_) for a_ in split_expr.args] == ["b'/'"] and \
+        "unquote" not in src(split_expr.func.value)
+    ctx.check(ok, "server/split-before-unquote", q + " | self.postpath",
+              "the request path is not split at '/' before each piece is unquoted: %2F would create extra segments / '..' pieces that bypass per-segment checks")
+    f = norm_function(ctx, RS, "getChildForRequest")
+    q = "twisted.web.resource.getChildForRequest"
+    pops = [s_ for s_ in walk_local(f) if isinstance(s_, ast.Assign) and isinstance(s_.value, ast.Call) and call_name(s_.value) == "request.postpath.pop" and isinstance(s_.targets[0], ast.Name)]
+    gcs = [c for c in walk_local(f) if isinstance(c, ast.Call) and call_attr(c) == "getChildWithDefault"]
+    if len(pops) != 1 or len(gcs) != 1:
+        raise Abstain(f"{len(pops)} pop sites / {len(gcs)} getChildWithDefault sites in getChildForRequest")
+    x = pops[0].targets[0].id
+    ok = [src(a_) for a_ in pops[0].value.args] == ["0"] and [src(a_) for a_ in gcs[0].args] == [x, "request"]
+    ctx.check(ok, "server/segment-passed-whole", q, "the traversal does not hand each popped postpath segment (first to last) unchanged to getChildWithDefault")
+
+
+def _domain_argument(ctx, meth):
+    """the containment decision depends on the name only through type(name), normpath(name) and equality with constants: then the normpath classes enumerated by the grid are exhaustive"""
+    try:
+        f = norm_method(ctx, FP, "FilePath", meth)
+    except Abstain:
+        return None
+    p = param_names(f)[1]
+    other = []
+    for u in param_uses(f, p):
+        if isinstance(u, ast.JoinedStr):
+            continue
+        if isinstance(u, ast.Call):
+            cn = call_name(u) or ""
+            if cn in ("normpath", "os.path.normpath", "_coerceToFilesystemEncoding", "self._getPathAsSameTypeAs", f"{p}.count", "isinstance", "type") or cn.startswith("self._"):
+                continue
+        if isinstance(u, ast.Compare) and all(isinstance(o, (ast.Eq, ast.NotEq, ast.In, ast.NotIn)) for o in u.ops):
+            continue
+        other.append(src(u)[:50])
+    return other
+
+
 def check(ctx):
-    sections = (("child", lambda c: _semantics(c, "child", True, "containment/child-semantics")), ("preauthChild", lambda c: _semantics(c, "preauthChild", False, "containment/preauth-semantics")),
+    sections = (("taint", lambda c: structural(c, "static/segment-only-through-child", "static/evaluated-containment (bounded)", _taint_getchild, c)),
+                ("undecodable", lambda c: structural(c, "static/undecodable-notfound", "static/evaluated-containment (bounded)", _undecodable, c)),
+                ("not-overridden", _not_overridden),
+                ("server-structural", lambda c: structural(c, "server/split-before-unquote", "server/evaluated (bounded)", _server_structural, c)),
+                ("child", lambda c: _semantics(c, "child", True, "containment/child-semantics")), ("preauthChild", lambda c: _semantics(c, "preauthChild", False, "containment/preauth-semantics")),
                 ("descendant", _descendant), ("static-evaluated", _static_evaluated), ("server", _server))
     for name, fn in sections:
         with ctx.section(name):
